@@ -108,8 +108,19 @@ static int write_rank(const char* out, unsigned n, int rank) {
     return 0;
 }
 
+// the layout older versions of the program wrote: /PhaseSpace/data [records][n][n] (no bunch dimension); three records, record r = input * (1 + r/4)
+static int write_start3(const char* out, unsigned n, const char* rawfile) {
+    std::vector<float> v((size_t)n * n); FILE* f = fopen(rawfile, "rb"); if (!f || fread(v.data(), 4, v.size(), f) != v.size()) { fprintf(stderr, "cannot read %s\n", rawfile); return 2; } fclose(f);
+    std::vector<float> all; for (int r = 0; r < 3; r++) for (float x : v) all.push_back(x * (1.f + 0.25f * r));
+    H5::H5File file(out, H5F_ACC_TRUNC); file.createGroup("/PhaseSpace");
+    hsize_t dims[3] = {3, n, n}; H5::DataSpace sp(3, dims);
+    file.createDataSet("/PhaseSpace/data", H5::PredType::IEEE_F32LE, sp).write(all.data(), H5::PredType::NATIVE_FLOAT);
+    return 0;
+}
+
 int main(int c, char** v) {
     if (c >= 5 && std::string(v[1]) == "--write") return write_start(v[2], (unsigned)atoi(v[3]), v[4]);
+    if (c >= 5 && std::string(v[1]) == "--write3") return write_start3(v[2], (unsigned)atoi(v[3]), v[4]);
     if (c >= 5 && std::string(v[1]) == "--write-rank") return write_rank(v[2], (unsigned)atoi(v[3]), atoi(v[4]));
     if (c >= 4 && std::string(v[1]) == "--write-empty") return write_empty(v[2], (unsigned)atoi(v[3]));
     if (c < 2) { fprintf(stderr, "usage: h5json file.h5 [--max N]\n"); return 2; }
